@@ -539,6 +539,10 @@ func (e *Env) call(x *SExpr) Val {
 	case "ite":
 		c := e.evalBool(x.Args[0])
 		a, b := argv(1), argv(2)
+		if a.K == KConst && b.K == KConst {
+			a = vc.convert(e.st, a, types.Typ[types.Int], token.Position{})
+			b = vc.convert(e.st, b, types.Typ[types.Int], token.Position{})
+		}
 		if a.K == KConst && b.K != KConst {
 			a = vc.convert(e.st, a, b.T, token.Position{})
 		}
@@ -627,6 +631,23 @@ func (e *Env) call(x *SExpr) Val {
 			return e.fail("iface_ptr")
 		}
 		return ptrFromRef(t, a.If[1])
+	case "bytesult":
+		// bytesult(a, ai, b, bi, n) with literal n: the n bytes of a from ai, read as one big-endian
+		// number, are below those of b (= lexicographic order of equal-length byte strings)
+		a, ai, b, bi := argv(0), toIdx(argv(1)), argv(2), toIdx(argv(3))
+		nv := argv(4)
+		if nv.K != KConst || !nv.C.IsInt64() || nv.C.Int64() > 32 || nv.C.Int64() < 1 {
+			return e.fail("bytesult needs a literal length <= 32")
+		}
+		var as, bs []string
+		for k := int64(0); k < nv.C.Int64(); k++ {
+			as = append(as, e.byteAt(a, bvAdd(ai, i64(k))))
+			bs = append(bs, e.byteAt(b, bvAdd(bi, i64(k))))
+		}
+		if len(as) == 1 {
+			return boolVal(sx("bvult", as[0], bs[0]))
+		}
+		return boolVal(sx("bvult", sx("concat", as...), sx("concat", bs...)))
 	case "within":
 		// within(a, b): slice a lies inside the first len(b) elements of b's backing array window
 		a, b := argv(0), argv(1)
